@@ -5,7 +5,7 @@ import zlib
 
 from vmon.probe import shard_rng, observe
 from vmon.refs import b58 as RB, ec as REC, msgsign as RM, sec as RS
-from vmon.gen import textequiv as TE
+from vmon.gen import textequiv as TE, armoursyntax as AS
 
 PROPERTY = "C17"
 PRELOAD_NETWORK_ORDERS = [["btc", "xtn", "ltc", "bch", "grs", "doge", "dash", "btg"], ["btg", "grs", "bch", "doge", "ltc", "xtn", "btc"]]
@@ -47,6 +47,25 @@ RULE = ("honest cases: (network, secret exponent, compression flag, message) wit
         "public key / address, armoured and parsed on the same signer object, and the other side's text is then queried against that "
         "signature by key, by public key, by address, by keyword, and inside the armour (the signed armour with the message body "
         "exchanged, parsed, the parsed triple verified); every honest and history case also queries respellings of its own message. "
+        "armour-syntax messages (vmon/gen/armoursyntax.py): every syntactic element of the armour and of the clearsign format it imitates - "
+        "'Label: value' header lines closed by an empty line (13 labels, each on its own: Hash, Charset, Version, Comment, Address, "
+        "Signature ...), several of them, header-looking lines that are no block, empty and blank lines, dash-escaped lines and lines of "
+        "dashes, BEGIN / END marker text that is not a marker line, the trailer's labels and values (the signer's own address, a "
+        "signature-like line) - at the start, in the middle, at the end of the message and as the whole message, in both newline styles, "
+        "then one to three of them combined; each (element class, position) has its own required counter; the armour is signed, parsed, "
+        "compared and the parsed triple verified. Networks whose names nest (Bitcoin / BitcoinDark) are crossed in both directions. "
+        "Key flavours: the same key as plain key and as BIP32 node (private and public copy) on both sides of sign / verify. "
+        "Caller-owned mutable objects: the signature handed over as a bytearray (with and without a trailing line end) must come back "
+        "unmodified and give the same answer twice; a list returned by parse_signed is edited before the text is parsed again. "
+        "group law: valid signatures built with a chosen nonce or chosen (r, s) so that recovery / verification meets each special case of "
+        "point addition (terms opposite = doubling, the verifier's terms equal, R = +-G, +-2G, G/2, Q = +-R, s = +-r, r = +-digest; both "
+        "s forms) must verify for key and address and recover exactly the key; the infinity case must be refused. "
+        "refused calls: in histories, 36 kinds of calls the library cannot serve (None / bytes / int / list / float where text or an "
+        "integer is expected, a key without secret, exponent 0 / n, an unparsable address, truncated armour ...) are taken in turn "
+        "between the judged calls, on the same signer and key objects; only the calls after them are judged. "
+        "long run: one shard signs more than 2^16 (thorough 2^17) times on ONE signer object in one process, every signature judged "
+        "(reference recovery, remembered per distinct signature text), with a digest of a fresh message per operation and a verify / "
+        "recovery every 32nd operation and around operation 2^16. "
         "Distinct by (operation, network, key, text, message) and, in histories, by (previous call, call); every case is non-trivial.")
 ASSUMPTIONS = [
     "references vmon/refs/msgsign.py, ec.py, sec.py, b58.py are correct (self-tested on every run: RFC 6979 A.2.5 vectors, "
@@ -83,6 +102,14 @@ ASSUMPTIONS = [
     "message). The UTF-8 bytes of the signed message itself are never queried (an API that accepted bytes might rightly accept them)",
     "the signed armour with its message body exchanged is not an armour the statement describes; parse_signed may refuse it or return any "
     "triple - demanded is only that verify() on the triple it returns gives the reference's verdict for that triple",
+    "an 'armour marker line' is a line that IS a marker (-----BEGIN/END ... SIGNATURE / SIGNED MESSAGE-----); marker text with other "
+    "characters on its line (dash-escaped, indented, misspelt), 'Label: value' lines, empty lines and the signer's own address or a "
+    "signature-like line are ordinary message text, for which the armoured round trip is demanded",
+    "ECDSA leaves the nonce to the signer: a signature made by the reference with a chosen nonce (or a chosen (r, s) whose key the "
+    "reference recovers) that the reference verifies is 'a produced signature' of that key for the verifier, like the recid >= 2 ones",
+    "a call with an argument of the wrong type or a key without its secret may raise anything or return anything (not judged); the "
+    "judged calls after it must be right. A signature given as bytes / bytearray is not 'signature text': only 'not modified, same "
+    "answer twice, True only if its bytes decode to a signature of the target' is demanded",
     "networks GRS, GRSRT, TGRS need the absent groestlcoin_hash module and are reported as absent configurations",
 ]
 EXPLANATION = ("every signature pycoin produces is decoded and its signer recovered by independent arithmetic over the reference "
@@ -130,11 +157,17 @@ def plan(tier, seed):
     for i in range(3 if q else 8):
         shards.append({"kind": "equiv", "idx": i, "pairs": 132 if q else 6000, "label": "equiv-openssl-%d" % i})
     shards.append({"kind": "equiv", "idx": 70, "pairs": 9 if q else 220, "light": True, "env": {"PYCOIN_NATIVE": "none"}, "label": "equiv-purepython"})
+    # messages made of the armour's own syntax, at every position; networks with nested names; key flavours; caller-owned mutable arguments
+    for i in range(1 if q else 4):
+        shards.append({"kind": "syntax", "idx": i, "random": 160 if q else 6000, "stride": 3 if q else 1, "label": "syntax-openssl-%d" % i})
+    # one long run on ONE signer object in ONE process: more than 2^16 (thorough: 2^17) signatures, digests and recoveries
+    shards.append({"kind": "longrun", "ops": (1 << 16) + 100 if q else (1 << 17) + 100, "label": "longrun-openssl", "timeout": 1800 if q else 3 * 3600})
     return shards
 
 
 def selftest(rec):
-    return {"ec": REC.selftest(), "sec": RS.selftest(), "msgsign": RM.selftest(), "b58_vectors": RB.selftest(), "textequiv": TE.selftest()}
+    return {"ec": REC.selftest(), "sec": RS.selftest(), "msgsign": RM.selftest(), "b58_vectors": RB.selftest(), "textequiv": TE.selftest(),
+            "armoursyntax": AS.selftest()}
 
 
 # ---------------------------------------------------------------------------------------------
@@ -684,6 +717,285 @@ def run_equiv(spec, rec, m):
 
 # ---------------------------------------------------------------------------------------------
 
+# ---------------------------------------------------------------------------------------------
+# messages made of the armour's own syntax; nested network names; key flavours; caller-owned mutable arguments
+
+def check_armour(net, code, se, comp, msg, rec, m, tags):
+    """sign(verbose) -> parse_signed -> the same message and address and a signature of the signer over that message -> verifies."""
+    case = {"net": code, "se": se, "compressed": comp, "msg": msg, "armour": True, "syntax": tags}
+    rec.case(("armour", code, se, comp, msg))
+    if not AS.in_domain(msg):
+        rec.ev("inconclusive:armour syntax generator left the armoured domain")
+        rec.note("not in the armoured domain: %r" % msg[:200])
+        return
+    key = net.keys.private(se, is_compressed=comp)
+    addr = key.address()
+    z = RM.digest(net.network_name, msg)
+    rec.ev("sign(verbose)")
+    ok, text = call(rec, case, "sign_verbose", net.msg.sign, key, msg, verbose=True)
+    if not ok:
+        return
+    rec.ev("parse_signed")
+    st, parsed = observe(net.msg.parse_signed, text)
+    parsed = triple(parsed) if st == "ok" else parsed
+    if st != "ok" or not (isinstance(parsed, tuple) and len(parsed) == 3) or parsed[0] != msg or parsed[1] != addr:
+        rec.violation("msg.armour_roundtrip_mismatch", case, parsed, [msg, addr, "<signature>"])
+        return
+    if judge_signature(rec, case, m, parsed[2], z, m.refpub(se), comp) is None:
+        return
+    rec.ev("verify(parsed armour)")
+    st, v = observe(net.msg.verify, parsed[1], parsed[2], parsed[0])
+    if st != "ok" or v is not True:
+        rec.violation("msg.armour_parsed_triple_does_not_verify", case, v, True)
+    return text, parsed[2], key, addr
+
+
+def nested_name_pairs(m):
+    """pairs of usable networks whose names differ and nest (one is contained in the other, case-insensitively)."""
+    codes = sorted(m.nets)
+    up = {c: m.nets[c].network_name.upper() for c in codes}
+    return [(a, b) for a in codes for b in codes if up[a] != up[b] and up[a] in up[b]]
+
+
+def check_nested_names(m, rec, rng):
+    for a, b in nested_name_pairs(m):
+        for x, y in ((a, b), (b, a)):
+            nx, ny = m.nets[x], m.nets[y]
+            for msg in ("", "hello", ny.network_name[len(nx.network_name):] + " Signed Message:\nhello" if x == a else "x"):
+                se = rng.randrange(1, N)
+                comp = bool(rng.randrange(2))
+                case = {"net": x, "se": se, "compressed": comp, "msg": msg, "armour": True}
+                rec.case(("nested", x, y, se, comp, msg))
+                ok, sig = call(rec, case, "sign", nx.msg.sign, nx.keys.private(se, is_compressed=comp), msg)
+                if not ok or judge_signature(rec, case, m, sig, RM.digest(nx.network_name, msg), m.refpub(se), comp) is None:
+                    continue
+                ky = ny.keys.private(se, is_compressed=comp)
+                for what, target in (("key", ky), ("address", ky.address())):
+                    rec.ev("verify(other network: nested names)")
+                    ok, v = call(rec, case, "verify", ny.msg.verify, target, sig, msg)
+                    if ok and v is not False:
+                        rec.violation("msg.verifies_on_other_network", dict(case, other_net=y, target=what), v, False)
+
+
+def check_flavours(net, code, rec, m, rng):
+    """the same key as a plain key and as a hierarchical (BIP32) node, as signer and as verification target in every combination."""
+    st, node = observe(lambda: net.keys.bip32_seed(bytes(rng.randrange(256) for _ in range(16))).subkey_for_path("0/%d" % rng.randrange(5)))
+    if st != "ok":
+        rec.ev("flavour:bip32 unavailable on this network")
+        return
+    st, se = observe(node.secret_exponent)
+    if st != "ok" or not isinstance(se, int):
+        rec.ev("flavour:bip32 unavailable on this network")
+        return
+    comp = True
+    msg = rng.choice(["", "flavour", "two\nlines é"])
+    z = RM.digest(net.network_name, msg)
+    Pref = m.refpub(se)
+    plain = net.keys.private(se, is_compressed=comp)
+    signers = {"plain": plain, "bip32": node}
+    st, sib = observe(lambda: node.subkey_for_path("1"))
+    for sname in ("plain", "bip32"):
+        case = {"net": code, "se": se, "compressed": comp, "msg": msg, "armour": True, "signer_flavour": sname}
+        rec.case(("flavour", code, se, sname, msg))
+        ok, sig = call(rec, case, "sign", net.msg.sign, signers[sname], msg)
+        if not ok or judge_signature(rec, case, m, sig, z, Pref, comp) is None:
+            continue
+        targets = [("plain", plain), ("plain_public", net.keys.public(Pref, is_compressed=comp)), ("bip32", node)]
+        st2, pubnode = observe(node.public_copy)
+        if st2 == "ok":
+            targets.append(("bip32_public", pubnode))
+        st2, a = observe(node.address)
+        if st2 == "ok" and a == plain.address():
+            targets.append(("bip32_address", a))
+        for tname, target in targets:
+            rec.ev("flavour:%s signs > %s verifies" % (sname, tname))
+            ok, v = call(rec, case, "verify", net.msg.verify, target, sig, msg)
+            if ok and v is not True:
+                rec.violation("msg.own_signature_rejected.flavour", dict(case, target_flavour=tname), v, True)
+        if st == "ok":
+            rec.ev("flavour:%s signs > sibling node refused" % sname)
+            ok, v = call(rec, case, "verify", net.msg.verify, sib, sig, msg)
+            if ok and v is not False:
+                rec.violation("msg.verifies_for_other_key", dict(case, other="sibling BIP32 node"), v, False)
+
+
+def check_mutable_arguments(net, code, se, comp, msg, text, sig, key, addr, rec):
+    """class of caller-owned mutable objects: a signature handed over as a bytearray (accepted today) is not modified and gives the same
+    answer twice; a True for it must be justified by its bytes; a mutable container returned by parse_signed, edited by the caller,
+    does not change what parse_signed returns next."""
+    case = {"net": code, "se": se, "compressed": comp, "msg": msg, "armour": True, "mutable": True}
+    z = RM.digest(net.network_name, msg)
+    raw = RM.strict_b64(sig)
+    for sfx in ("", "\n", " ", "\r\n"):
+        ba = bytearray((sig + sfx).encode("ascii"))
+        before = bytes(ba)
+        rec.ev("mutable:bytearray_signature")
+        outs = []
+        for target in (key, addr, key):
+            st, v = observe(net.msg.verify, target, ba, msg)
+            outs.append((st, v if st == "ok" else type(v).__name__))
+            if bytes(ba) != before:
+                rec.violation("msg.mutable_argument.bytearray_signature_modified", dict(case, suffix=sfx), bytes(ba), before)
+                return
+            if st == "ok" and v and raw not in RM.decodings(before.decode("ascii")):
+                # (sig itself was judged valid for this key by the reference before; a True is justified when some decoding of the
+                # bytes is that signature)
+                rec.violation("msg.accepts_invalid_signature", dict(case, suffix=sfx), v, False)
+        if outs[0] != outs[2]:
+            rec.violation("msg.mutable_argument.second_call_differs", dict(case, suffix=sfx), outs[2], outs[0])
+        st, v = observe(net.msg.pair_for_message_hash, ba, z)
+        if bytes(ba) != before:
+            rec.violation("msg.mutable_argument.bytearray_signature_modified", dict(case, suffix=sfx, op="pair_for_message_hash"), bytes(ba), before)
+            return
+    rec.ev("verify(key)")
+    ok, v = call(rec, case, "verify", net.msg.verify, key, sig, msg)
+    if ok and v is not True:
+        rec.violation("msg.own_signature_rejected.key", dict(case, then="after the same signature was queried as a bytearray"), v, True)
+    # the returned container
+    st, r1 = observe(net.msg.parse_signed, text)
+    if st == "ok" and isinstance(r1, list):
+        rec.ev("mutable:parse_result_edited")
+        r1[:] = ["edited by the caller"] + r1[:1]
+    elif st == "ok":
+        rec.ev("mutable:parse_result_immutable")
+    rec.ev("mutable:parse_result_checked")
+    st, r2 = observe(net.msg.parse_signed, text)
+    r2 = triple(r2) if st == "ok" else r2
+    if st != "ok" or r2 != (msg, addr, sig):
+        rec.violation("msg.armour_roundtrip_mismatch.second_parse", case, r2, [msg, addr, sig])
+
+
+def run_syntax(spec, rec, m):
+    rng = shard_rng(spec["seed"], PROPERTY, spec["tier"], spec["shard"])
+    codes = sorted(m.nets)
+    bounds = boundary_exponents()
+    idx, seed, stride = spec["idx"], spec["seed"], spec["stride"]
+    cases = []
+    for k, c in enumerate(AS.systematic()):
+        cls, pos = c["classes"][0]
+        known = cls.startswith("header_block:") and cls.split(":", 1)[1] in AS.KNOWN_HEADER_LABELS + ["several"] and pos in ("start", "only")
+        # quick: of every (class, position) one instance in three (which one moves with the seed; at least one), and every header block
+        # of a label a clearsign-aware parser knows at the start of the message
+        if known or stride == 1 or (c["instance"] + seed + idx) % min(stride, c["instances"]) == 0:
+            cases.append(c)
+    cases += [AS.gen_case(rng) for _ in range(spec["random"])]
+    sampled = 0
+    for k, c in enumerate(cases):
+        code = codes[(idx * 17 + k * 7 + seed) % len(codes)] if k % 4 else ("BTC" if "BTC" in m.nets else codes[0])
+        net = m.nets[code]
+        se = bounds[(k // 6 + idx) % len(bounds)] if k % 6 == 0 else rng.randrange(1, N)
+        comp = bool((k + idx + k // 2) & 1)
+        addr = net.keys.private(se, is_compressed=comp).address()
+        msg = AS.fill(c["template"], addr, net.network_name.upper())
+        for cls, pos in c["classes"]:
+            rec.ev("syntax:%s@%s" % (cls, pos))
+        rec.ev("syntax:nl:" + c["nl"])
+        if len(c["classes"]) > 1:
+            rec.ev("syntax:two or three elements in one message")
+        out = check_armour(net, code, se, comp, msg, rec, m, c["classes"])
+        if out and k % 9 == 0:
+            check_mutable_arguments(net, code, se, comp, msg, out[0], out[1], out[2], out[3], rec)
+        if out and sampled < 2 and c["classes"][0][0] == "header_block:Hash" and c["classes"][0][1] == "start":
+            sampled += 1
+            rec.sample({"op": "sign(verbose) / parse_signed / verify of a message made of armour syntax", "net": code, "message": msg,
+                        "expected": "parses back to exactly this message"})
+    check_nested_names(m, rec, rng)
+    for k in range(6 if spec["tier"] == "quick" else 200):
+        code = codes[(idx * 5 + k * 11 + seed) % len(codes)]
+        check_flavours(m.nets[code], code, rec, m, rng)
+    rec.ev("networks_usable", len(codes))
+
+
+# ---------------------------------------------------------------------------------------------
+# the n-th operation: one long run on ONE signer object in ONE process
+
+def run_longrun(spec, rec, m):
+    """more than 2^16 (thorough 2^17) sign() calls - each one generator multiplication - on one network's signer object, generator
+    and a few key objects, every one of them judged: the signature text is decoded and its signer recovered by the reference (the
+    verdict for one (text, digest) pair is remembered, so a repeated identical signature costs a lookup and a different one a fresh
+    recovery). Interleaved: a digest of a NEW message per operation (judged by the reference digest), and every 32nd operation a
+    verify / recovery (two more multiplications) with the reference's verdict. Whatever per-object or per-process resource counts
+    operations (re-blinding interval, cache limit, counter wrap), the operation on which it strikes is a judged one."""
+    rng = shard_rng(spec["seed"], PROPERTY, spec["tier"], spec["shard"])
+    code = "BTC" if "BTC" in m.nets else sorted(m.nets)[0]
+    net = m.nets[code]
+    name = net.network_name
+    signer = net.msg
+    ses = [rng.randrange(1, N), 1, N - 1, rng.randrange(1, N)]
+    msgs = ["", "long run", "two\nlines é", "x" * 253, "{msg} {sig}", "😀", "a\r\nb", " padded "]
+    pool = []
+    for i, se in enumerate(ses):
+        comp = bool(i & 1)
+        key = net.keys.private(se, is_compressed=comp)
+        for msg in (msgs if i == 0 else msgs[:3]):
+            pool.append((se, comp, key, key.address(), msg, RM.digest(name, msg)))
+    other = net.keys.private(ses[0] % (N - 1) + 1)
+    ops = spec["ops"]
+    last = {}
+    n_sign = n_hash = n_verify = 0
+    for i in range(ops):
+        # most operations on ONE key object (pool[0..7]), the rest spread
+        j = i % 8 if i % 4 else (i // 4) % len(pool)
+        se, comp, key, addr, msg, z = pool[j]
+        case = {"net": code, "se": se, "compressed": comp, "msg": msg, "armour": False, "nth_operation": i + 1}
+        st, sig = observe(signer.sign, key, msg)
+        n_sign += 1
+        if st != "ok":
+            rec.violation("msg.honest_call_raises.sign", case, sig, "no exception")
+            break
+        if last.get(j) != sig:
+            # judged by the reference (remembered per (text, digest)); an identical repetition has the same verdict
+            rec.case(("longrun", j, sig))
+            if judge_signature(rec, case, m, sig, z, m.refpub(se), comp) is None:
+                break
+            last[j] = sig
+            rec.ev("longrun:signature judged by reference recovery")
+        else:
+            rec.ev("longrun:signature identical to one already judged")
+        # a digest of a message never seen before (fills any memo table), judged by the reference digest
+        fresh = "%s #%d" % (msg[:40], i)
+        st, hz = observe(signer.hash_for_signing, fresh)
+        n_hash += 1
+        if st != "ok" or hz != RM.digest(name, fresh):
+            rec.violation("msg.digest_mismatch", dict(case, msg=fresh), hz, RM.digest(name, fresh))
+            break
+        if i % 32 == 5 or (1 << 16) - 3 <= i <= (1 << 16) + 3 or (1 << 17) - 3 <= i <= (1 << 17) + 3:
+            n_verify += 1
+            w = (i // 32) % 4 if i % 32 == 5 else i % 4
+            if w == 0:
+                st, v = observe(signer.verify, key, sig, msg)
+                want = True
+            elif w == 1:
+                st, v = observe(signer.verify, addr, sig, msg)
+                want = True
+            elif w == 2:
+                st, v = observe(signer.verify, other, sig, msg)
+                want = False
+            else:
+                st, v = observe(signer.pair_for_message_hash, sig, z)
+                want = None
+            if st != "ok":
+                rec.violation("msg.honest_call_raises.verify", case, v, "no exception")
+                break
+            if want is None:
+                if tuple(v[0]) != m.refpub(se) or bool(v[1]) is not comp:
+                    rec.violation("msg.pair_for_message_hash_mismatch", case, v, [m.refpub(se), comp])
+                    break
+            elif v is not want:
+                rec.violation("msg.own_signature_rejected.key" if want else "msg.verifies_for_other_key", case, v, want)
+                break
+    rec.case(("longrun", code, ops), n=n_sign + n_hash + n_verify - len(last))
+    rec.ev("longrun:sign", n_sign)
+    rec.ev("longrun:hash_for_signing", n_hash)
+    rec.ev("longrun:verify or recover", n_verify)
+    if n_sign > 1 << 16:
+        rec.ev("longrun:more than 2^16 signatures on one signer object in one process")
+    if n_sign > 1 << 17:
+        rec.ev("longrun:more than 2^17 signatures on one signer object in one process")
+    rec.sample({"op": "long run", "net": code, "sign": n_sign, "hash_for_signing": n_hash, "verify or recover": n_verify})
+    rec.ev("networks_usable")
+
+
 def raise_mech(text):
     raw = RM.lenient_b64(text)
     t = RM.split_compact(raw)
@@ -728,6 +1040,10 @@ def judge_hostile(net, code, tk, rec, text, msg, cls):
         # not hostile at all: a signature the reference verifies for this very key, whose R.x lies in [n, p) (recovery id 2 or 3).
         # It stands for the produced signatures of that kind, which no search can find (probability 2^-128 per signature)
         rec.violation("msg.valid_signature_rejected.recid_ge_2", case, v, True)
+    if cls.startswith("grouplaw:") and not v:
+        # a valid signature (the reference verifies it for this key) whose recovery / verification meets a special case of the group
+        # law; equally unreachable by search
+        rec.violation("msg.valid_signature_rejected.group_law." + cls.split(":", 1)[1], case, v, True)
     if v:
         z = RM.digest(net.network_name, msg)
         Q = tuple(key.public_pair())
@@ -843,6 +1159,88 @@ def crafted_aliases(rng, z):
                 yield "valid_recid_ge_2", {"pub": pub}, RM.compact(27 + 2 + par + 4 * comp, r0, s0)
 
 
+SPECIAL_NONCES = [1, 2, 3, N - 1, N - 2, (N - 1) // 2, (N + 1) // 2]
+
+
+def group_law_cases(rng, z, rec, few=False):
+    """yield (class, target description, text, (Q, compressed)): VALID signatures over z, made with a chosen nonce k (ECDSA leaves the
+    nonce to the signer) or chosen (r, s), in which the recovery Q = (s/r) R - (z/r) G, or the verification (z/s) G + (r/s) Q, meets
+    each special case of the group law:
+      recovery_terms_opposite   s k = -z, i.e. d = -2 z / r: the two terms are each other's negation, Q = 2 (s/r) R (a doubling, or -
+                                in the form r^-1 (s R - z G) - the sum of two equal points)
+      verification_terms_equal  d = z / r: (z/s) G = (r/s) Q, the verifier's sum is a doubling
+      nonce_pm1_pm2             R = +-G, +-2G, G/2 ...: R coincides with the generator or a small multiple of it
+      key_is_pm_nonce           Q = +-R
+      s_is_pm_r                 s/r = +-1: the first term is +-R itself
+      r_is_pm_digest            z/r = +-1: the second term is +-G itself
+    (the remaining case - the two recovery terms equal, Q = infinity - is not a valid signature: class recovers_infinity.) Each
+    comes with its high-s twin (r, n - s, other parity), which is a signature by the same key. The reference decides validity;
+    when the reference does not confirm what the construction promises the case is dropped and counted as inconclusive."""
+    zi = z % N
+    ks = list(SPECIAL_NONCES) + [rng.randrange(1, N), (1 << 200) + 7]
+    rng.shuffle(ks)
+    out = []
+
+    def known_key(cls, d, k):
+        d %= N
+        if not d:
+            return
+        R = C.mul(k, C.G)
+        r = R[0] % N
+        s = pow(k, -1, N) * (zi + r * d) % N
+        if not r or not s or R[0] >= N:
+            return
+        out.append((cls, d, None, r, s, R[1] & 1))
+
+    for k in ks[:1 if few else 4]:
+        R = C.mul(k, C.G)
+        r = R[0] % N
+        if r and zi:
+            ri = pow(r, -1, N)
+            known_key("recovery_terms_opposite", -2 * zi * ri, k)
+            known_key("verification_terms_equal", zi * ri, k)
+    for k in rng.sample(SPECIAL_NONCES, 1 if few else 4):
+        known_key("nonce_pm1_pm2", rng.randrange(1, N), k)
+    k = rng.choice(ks)
+    known_key("key_is_pm_nonce", k, k)
+    if not few:
+        known_key("key_is_pm_nonce", N - k, k)
+    # chosen (r, s): the key is whatever the reference recovers (no private key known)
+    x = rng.randrange(1, N)
+    while C.lift_x(x) is None:
+        x += 1
+    for s0 in (x, N - x)[:1 if few else 2]:
+        out.append(("s_is_pm_r", None, None, x, s0, rng.randrange(2)))
+    for r0 in (zi, N - zi):
+        if 0 < r0 < N and C.lift_x(r0) is not None:
+            out.append(("r_is_pm_digest", None, None, r0, rng.randrange(1, N), rng.randrange(2)))
+    for i, (cls, d, _, r, s, par) in enumerate(out):
+        for twin in ((0, 1) if not few else (i & 1,)):
+            ss, pp = (s, par) if not twin else (N - s, par ^ 1)
+            Q = RM.recover(z, r, ss, pp)
+            if Q is None or not RM.verify(Q, z, r, ss) or (d is not None and Q != C.mul(d, C.G)):
+                rec.ev("inconclusive:group law construction not confirmed by the reference (%s)" % cls)
+                rec.note("group_law_cases: %s z=%x r=%x s=%x par=%d d=%r not confirmed" % (cls, z, r, ss, pp, d))
+                continue
+            comp = bool((i + twin) & 1)
+            tk = {"se": d, "compressed": comp} if d is not None else {"pub": RS.encode(Q, comp)}
+            yield "grouplaw:" + cls, tk, RM.compact(27 + pp + 4 * comp, r, ss), (Q, comp)
+
+
+GROUP_LAW_CLASSES = ["recovery_terms_opposite", "verification_terms_equal", "nonce_pm1_pm2", "key_is_pm_nonce", "s_is_pm_r", "r_is_pm_digest"]
+
+
+def judge_pair(net, code, rec, text, msg, cls, want):
+    """pair_for_message_hash on a constructed valid signature: exactly the signer's public key and key form."""
+    z = RM.digest(net.network_name, msg)
+    case = {"net": code, "sig_text": text, "msg": msg, "cls": cls, "op": "pair", "want_sec": RS.encode(want[0], want[1])}
+    rec.case(("pair", code, text, msg))
+    rec.ev("pair_for_message_hash(constructed valid signature)")
+    st, v = observe(net.msg.pair_for_message_hash, text, z)
+    if st != "ok" or tuple(v[0]) != tuple(want[0]) or bool(v[1]) is not want[1]:
+        rec.violation("msg.pair_for_message_hash_mismatch", case, v, want)
+
+
 def run_hostile(spec, rec, m):
     rng = shard_rng(spec["seed"], PROPERTY, spec["tier"], spec["shard"])
     codes = sorted(m.nets)
@@ -884,6 +1282,15 @@ def run_hostile(spec, rec, m):
             for target in ("key", "address"):
                 judge_hostile(net, code, dict(tkd, target=target), rec, text, msg, cls)
                 done += 1
+        # valid signatures at the special cases of the group law: must verify for their key and address, recover exactly that key,
+        # and (only True is judged there) not verify for another message
+        for ai, (cls, tkd, text, want) in enumerate(group_law_cases(rng, z, rec, few=pure)):
+            for target in ("key", "address"):
+                judge_hostile(net, code, dict(tkd, target=target), rec, text, msg, cls)
+                done += 1
+            judge_pair(net, code, rec, text, msg, cls, want)
+            judge_hostile(net, code, dict(tkd, target=("key", "address")[ai & 1]), rec, text, msg + ".", "grouplaw_other_message")
+            done += 1
         if rnd == 0 and idx == 0:
             rec.sample({"op": "verify(hostile)", "net": code, "examples": [RM.compact(hdr, 0, s), good.rstrip("="), good[:5] + "é" + good[6:]],
                         "expected": "False (a bool), never an exception"})
@@ -910,6 +1317,65 @@ def hostile_variant(rng, text):
             RM.compact(h, _NOX[0], s), text[:-2], text.rstrip("="), text[:7] + "é" + text[8:], text[:40], "!" + text[1:]][k]
 
 
+REFUSED_KINDS = ["sign:key without secret exponent", "sign:message None", "sign:message bytes", "sign:message int", "sign:key None",
+                 "sign:verbose, message list", "sign_hash:exponent 0", "sign_hash:exponent n", "sign_hash:exponent None", "sign_hash:digest None",
+                 "sign_hash:digest str", "sign_hash:digest float", "sign_hash:digest 0", "verify:signature None", "verify:signature int",
+                 "verify:message int", "verify:message bytes", "verify:message list", "verify:address that does not parse", "verify:target None",
+                 "verify:msg_hash float", "verify:msg_hash str", "verify:neither message nor digest", "pair:signature None", "pair:digest None",
+                 "pair:digest str", "hash:bytes", "hash:None", "hash:int", "hash:lone surrogate", "parse:None", "parse:bytes", "parse:no marker",
+                 "parse:truncated armour", "parse:armour without address", "parse:empty trailer"]
+
+
+def _key(net, code, se, comp):
+    ck = (code, se, None, comp)
+    key = _KEYS.get(ck)
+    if key is None:
+        if len(_KEYS) > 2000:
+            _KEYS.clear()
+        key = _KEYS[ck] = net.keys.private(se, is_compressed=comp)
+    return key
+
+
+def refused_call(net, m, step, z):
+    kind, se, comp, msg, sig = step["kind"], step["se"], step["compressed"], step["msg"], step["sig"]
+    key = _key(net, step["net"], se, comp)
+    s = net.msg
+    fam, what = kind.split(":", 1)
+    if fam == "sign":
+        if what == "key without secret exponent":
+            return s.sign(net.keys.public(m.refpub(se), is_compressed=comp), msg, verbose=bool(se & 1))
+        if what == "key None":
+            return s.sign(None, msg)
+        if what == "verbose, message list":
+            return s.sign(key, [msg], verbose=True)
+        return s.sign(key, {"message None": None, "message bytes": msg.encode("utf8"), "message int": 5}[what], verbose=bool(se & 2))
+    if fam == "sign_hash":
+        if what.startswith("exponent"):
+            return s.signature_for_message_hash({"exponent 0": 0, "exponent n": N, "exponent None": None}[what], z, comp)
+        return s.signature_for_message_hash(se, {"digest None": None, "digest str": "%x" % z, "digest float": 1.5, "digest 0": 0}[what], comp)
+    if fam == "verify":
+        if what.startswith("signature"):
+            return s.verify(key, None if what.endswith("None") else 5, msg)
+        if what.startswith("message"):
+            return s.verify(key, sig, {"message int": 5, "message bytes": msg.encode("utf8"), "message list": [msg]}[what])
+        if what == "address that does not parse":
+            return s.verify(key.address()[:-1] + "~", sig, msg)
+        if what == "target None":
+            return s.verify(None, sig, msg)
+        if what == "neither message nor digest":
+            return s.verify(key, sig)
+        return s.verify(key.address(), sig, msg_hash=1.5 if what.endswith("float") else "%x" % z)
+    if fam == "pair":
+        if what == "signature None":
+            return s.pair_for_message_hash(None, z)
+        return s.pair_for_message_hash(sig, None if what.endswith("None") else "%x" % z)
+    if fam == "hash":
+        return s.hash_for_signing({"bytes": msg.encode("utf8"), "None": None, "int": 5, "lone surrogate": msg + "\ud800"}[what])
+    arm = RM.armour(net.network_name, msg, key.address(), sig or "AAAA")
+    return s.parse_signed({"None": None, "bytes": arm.encode("utf8"), "no marker": msg + "\n" + (sig or ""), "truncated armour": arm[:arm.index("-----BEGIN SIG") + 8],
+                           "armour without address": arm.replace(key.address() + "\n", ""), "empty trailer": arm[:arm.index("SIGNATURE-----") + 15]}[what])
+
+
 def history_step(m, rec, step, hist):
     """run one literal step on the real library and judge it by the reference alone. hist = the steps before it (for the witness)."""
     code = step["net"]
@@ -927,6 +1393,17 @@ def history_step(m, rec, step, hist):
         if st != "ok" or v != z:
             rec.violation("msg.digest_mismatch", case, v, z)
         return None
+    if op == "refused":
+        # a call the library cannot serve (wrong type, missing part, a key without its secret): whether and how it refuses is not
+        # judged - what the calls AFTER it return is. Made on the same signer object and the same (remembered) key object as the
+        # judged calls around it
+        st, v = observe(refused_call, net, m, step, z)
+        rec.ev("history:refused:" + step["kind"])
+        rec.ev("history:refused_call raised" if st != "ok" else "history:refused_call returned (not judged)")
+        step["_failed"] = True
+        return None
+    if prev and prev["op"] == "refused" and prev["net"] == code:
+        rec.ev("history:judged_call_after_refused_call")
     if op in ("sign", "sign_hash"):
         se, comp = step["se"], step["compressed"]
         if op == "sign_hash":
@@ -1105,6 +1582,12 @@ def run_episode(rng, rec, m, codes, steps, first):
                 cur["sig"] = aligned()
                 if cur["sig"] is None:
                     return
+        if rng.random() < 0.14:
+            # a call that cannot be served, made with the coordinates of the request as it stands, right before the judged call
+            kinds = REFUSED_KINDS
+            _REFUSED_SEQ[0] += 1
+            run({"op": "refused", "kind": kinds[_REFUSED_SEQ[0] % len(kinds)], "net": cur["net"], "se": cur["se"], "compressed": cur["compressed"],
+                 "msg": cur["msg"], "sig": cur["sig"]})
         w = rng.random()
         if w < 0.08:
             run({"op": "pair", "net": cur["net"], "sig": cur["sig"], "msg": cur["msg"]})
@@ -1114,8 +1597,12 @@ def run_episode(rng, rec, m, codes, steps, first):
             run(dict(cur, op="verify"))
 
 
+_REFUSED_SEQ = [0]
+
+
 def run_history(spec, rec, m):
     rng = shard_rng(spec["seed"], PROPERTY, spec["tier"], spec["shard"])
+    _REFUSED_SEQ[0] = spec["idx"] * 17 + spec["seed"] * 5           # the kinds of refused calls are taken in turn
     codes = sorted(m.nets)
     for ep in range(spec["episodes"]):
         run_episode(rng, rec, m, codes, spec["steps"], ep == 0 and spec["idx"] == 0)
@@ -1142,7 +1629,10 @@ def run_shard(spec, rec):
     if kind == "history":
         rec.require("history:verify", "history:verify_by_hash", "history:verify_by_text", "history:verify_by_text_kw", "history:expected_True",
                     "history:expected_False", "history:same_signature_other_digest_back_to_back", "history:verify_after_failed_call",
-                    "history:sign", "history:sign_hash", "history:pair", "history:pair_recoverable", "history:hash", "history:malformed_text")
+                    "history:sign", "history:sign_hash", "history:pair", "history:pair_recoverable", "history:hash", "history:malformed_text",
+                    "history:refused", "history:refused_call raised", "history:judged_call_after_refused_call")
+        if not spec.get("env"):
+            rec.require(*["history:refused:" + k for k in REFUSED_KINDS])
         run_history(spec, rec, m)
     elif kind == "equiv":
         rec.require("sign", "verify(key)", "verify(address)", "verify(equivalent message)", "verify(equivalent message, key)",
@@ -1156,6 +1646,20 @@ def run_shard(spec, rec):
                         "verify(equivalent message, public_key)", "equiv:control", "equiv:accents", "equiv:punct", "equiv:digits",
                         "equiv:confusable", "equiv:escape")
         run_equiv(spec, rec, m)
+    elif kind == "syntax":
+        rec.require("sign(verbose)", "parse_signed", "verify(parsed armour)", "syntax:nl:lf", "syntax:nl:crlf",
+                    "syntax:two or three elements in one message", "verify(other network: nested names)",
+                    "mutable:bytearray_signature", "mutable:parse_result_checked",
+                    "flavour:bip32 signs > plain verifies", "flavour:plain signs > bip32 verifies", "flavour:bip32 signs > bip32_public verifies",
+                    "flavour:bip32 signs > sibling node refused")
+        rec.require(*["syntax:%s@%s" % (c, p) for c in AS.CLASSES for p in AS.POSITIONS])
+        run_syntax(spec, rec, m)
+    elif kind == "longrun":
+        rec.require("longrun:sign", "longrun:hash_for_signing", "longrun:verify or recover", "longrun:signature judged by reference recovery",
+                    "longrun:more than 2^16 signatures on one signer object in one process")
+        if spec["tier"] != "quick":
+            rec.require("longrun:more than 2^17 signatures on one signer object in one process")
+        run_longrun(spec, rec, m)
     elif kind == "honest":
         # every clause of the statement's first sentence, every entry point, every usable network, both key forms, and the message
         # regions the quantifier names (empty, multi-line in both newline styles, the three length-prefix sizes, outside the BMP, and
@@ -1178,7 +1682,9 @@ def run_shard(spec, rec):
                     "hostile:b64_len_65", "hostile:b64_len_other", "hostile:text_damage", "hostile:random_text", "hostile:non_ascii",
                     "hostile:non_b64_char", "hostile:alias_s_zero", "hostile:alias_r_plus_n", "hostile:recovers_infinity",
                     "hostile:valid_recid_ge_2", "hostile:reference_signature", "hostile_target:key", "hostile_target:address",
-                    "hostile_result:False", "hostile_result:True")
+                    "hostile_result:False", "hostile_result:True", "pair_for_message_hash(constructed valid signature)",
+                    "hostile:grouplaw_other_message")
+        rec.require(*["hostile:grouplaw:" + c for c in GROUP_LAW_CLASSES])
         run_hostile(spec, rec, m)
 
 
@@ -1224,6 +1730,10 @@ def replay_case(case, rec):
                 step["se"], step["compressed"] = int(step["se"]), bool(step["compressed"])
             history_step(m, rec, step, hist)
             hist.append(step)
+    elif "sig_text" in case and case.get("op") == "pair":
+        sec = case["want_sec"]
+        sec = bytes.fromhex(sec[2:]) if isinstance(sec, str) else bytes(sec)
+        judge_pair(net, case["net"], rec, case["sig_text"], case["msg"], case.get("cls", "replay"), RS.strict_parse(sec))
     elif "sig_text" in case:
         tk = {"target": case["target"]}
         if "pub" in case:
@@ -1231,6 +1741,10 @@ def replay_case(case, rec):
         else:
             tk["se"], tk["compressed"] = int(case["se"]), bool(case["compressed"])
         judge_hostile(net, case["net"], tk, rec, case["sig_text"], case["msg"], case.get("cls", "replay"))
+    elif "syntax" in case or case.get("mutable"):
+        out = check_armour(net, case["net"], int(case["se"]), bool(case["compressed"]), case["msg"], rec, m, case.get("syntax"))
+        if out and case.get("mutable"):
+            check_mutable_arguments(net, case["net"], int(case["se"]), bool(case["compressed"]), case["msg"], out[0], out[1], out[2], out[3], rec)
     else:
         check_signed(net, case["net"], int(case["se"]), bool(case["compressed"]), case["msg"], bool(case.get("armour", True)), rec, m,
                      shard_rng(0, PROPERTY, "replay", 0), others=sorted(m.nets))
